@@ -68,7 +68,11 @@ async def fuzz_sequence(part, r, cfg):
             log.append(['PLAIN', z.decode('latin1'), u.decode('latin1'), p.decode('latin1')])
         elif kind == 'plain-raw':
             raw = await c.send(b't AUTHENTICATE PLAIN\r\n')
-            junk = r.choice([fuzz_creds(r), base64.b64encode(fuzz_creds(r)), base64.b64encode(fuzz_creds(r))[:-1], b'====', b'*', b'* ', b'a' * 5000])
+            good = base64.b64encode(b'\0bob\0pwbob')
+            k = r.randint(0, len(good))
+            # valid credentials inside a response that is not base64: bytes outside the alphabet, a cancel mark glued in front
+            wrapped = r.choice([good[:k] + r.choice([b'!', b'$', b' ', b'\t', b'??', b'\x00', b'\xff']) + good[k:], b'*' + good, b'!!' + good + b'??', good + b' x'])
+            junk = r.choice([fuzz_creds(r), base64.b64encode(fuzz_creds(r)), base64.b64encode(fuzz_creds(r))[:-1], b'====', b'*', b'* ', b'a' * 5000, wrapped, wrapped])
             junk = junk.replace(b'\r', b'').replace(b'\n', b'')
             if raw.startswith(b'+'):
                 raw = await c.send(junk + b'\r\n')
